@@ -128,7 +128,8 @@ def run_history(scene, ops, sandbox, stats=None, live=None):
                 n_unknown = len(unknown_paths(model, assign))
                 with warnings.catch_warnings(record=True) as rec:
                     warnings.simplefilter('always')
-                    ampycloud.set_prms(fname)
+                    import pathlib
+                    ampycloud.set_prms(pathlib.Path(fname) if pos % 2 else fname)
                 n_warn = sum(1 for w in rec if issubclass(w.category, AmpycloudWarning))
                 model = model_adjust(model, copy.deepcopy(assign))
                 bump('route.yaml')
